@@ -69,6 +69,8 @@ def check(repo, tier="quick"):
     res.rule("C26.b", "every target the description program reads is a declared entry of its context type (entry_objs[target] cannot miss)")
     res.rule("C26.c", "in BitstreamViewer.run the termination/EOF/interrupt handlers precede the generic handler; 255 is returned only under is_internal_error; is_internal_error resets on description-program frames")
     res.rule("C26.d", "the monitor formats list elements with a total formatter and reads the value it was just given")
+    res.rule("C26.g", "every formatter declared for a fixed-dictionary entry anywhere in the package (bitstream dictionaries and the decoder State the viewer can print) is an instance of a string_formatters class, None, or a repository function in which every subscript is total (index drawn from iterating the same container, or guarded by a membership test) and which raises nothing itself")
+    res.rule("C26.h", "the viewer re-reads every value it displays by seeking the reader back to the value's start: the reader's bounded-block accounting across seek() and its byte/bit positioning are the reviewed ones (C20.b bookkeeping agreement of reader and writer, C20.g seek order re-evaluated), otherwise a later seek inside the same block raises inside the monitor")
     res.rule("C26.e", "every container access (subscript) in the viewer's monitor code is total: declared-list key, index from range(len(same container)), target-keyed entry lookup, fixed tuple position")
 
     acc = formatter_accepts(repo)
@@ -115,6 +117,13 @@ def check(repo, tier="quick"):
     rule_d(repo, res)
     rule_e(repo, res, sm)
     rule_mixin(repo, res)
+    rule_g(repo, res, acc)
+    res.floor("C26.g", 30)
+    rule_h(repo, res)
+    res.floor("C26.h", 10)
+    from .. import intlimit
+
+    intlimit.rule(repo, res, "C26.g")
     from .. import lints as _lints
 
     _lints.rule(repo, res, "C26.f", ['scripts.vc2_bitstream_viewer', 'string_formatters', 'string_utils'])
@@ -417,3 +426,94 @@ def _path_nonempty(repo):
             first = n.body[0]
             appends = isinstance(first, ast.Expr) and isinstance(first.value, ast.Call) and isinstance(first.value.func, ast.Attribute) and first.value.func.attr == "append"
     return grows and appends
+
+
+def _total_function(fn):
+    """reasons why a custom formatter function may raise on a value of the documented shape: constant/foreign subscripts
+    without a membership guard, raise/assert statements"""
+    why = []
+    params = set(a.arg for a in fn.args.args)
+    # names bound by iterating something
+    iter_src = {}
+    for n in ast.walk(fn):
+        gens = []
+        if isinstance(n, ast.For):
+            gens = [(n.target, n.iter, [])]
+        elif isinstance(n, (ast.ListComp, ast.SetComp, ast.GeneratorExp, ast.DictComp)):
+            gens = [(g.target, g.iter, g.ifs) for g in n.generators]
+        for tgt, it, ifs in gens:
+            for x in ast.walk(tgt):
+                if isinstance(x, ast.Name):
+                    iter_src[x.id] = (it, ifs)
+    for n in ast.walk(fn):
+        if isinstance(n, (ast.Raise, ast.Assert)):
+            why.append("%s at line %d" % (type(n).__name__.lower(), n.lineno))
+        if isinstance(n, ast.Subscript) and isinstance(n.ctx, ast.Load):
+            base = norm(n.value)
+            sl = n.slice
+            if isinstance(sl, ast.Slice):
+                continue
+            ok = False
+            if isinstance(sl, ast.Name) and sl.id in iter_src:
+                it, ifs = iter_src[sl.id]
+                # iterating the container itself (possibly sorted()/keys()/sliced) or filtered by membership in it
+                ok = base in norm(it) or any(norm(t) == "%s in %s" % (sl.id, base) for t in ifs)
+            if not ok:
+                # membership guard around the access
+                p = getattr(n, "_parent", None)
+                c = n
+                while p is not None and p is not fn and not ok:
+                    if isinstance(p, (ast.If, ast.IfExp)) and norm(p.test) == "%s in %s" % (norm(sl), base) and (c is p.body or (isinstance(p.body, list) and any(c is x for x in p.body))):
+                        ok = True
+                    c, p = p, getattr(p, "_parent", None)
+            if not ok:
+                why.append("`%s` is not guarded (line %d)" % (short(n, 40), n.lineno))
+    return why
+
+
+def rule_g(repo, res, acc):
+    for fd in tables.fixeddicts(repo):
+        where = "%s:%s" % (fd.mod.rel, fd.var or fd.name)
+        for e in fd.entries.values():
+            if not isinstance(e.node, ast.Call):
+                continue
+            for kw in e.node.keywords:
+                if kw.arg not in ("formatter", "friendly_formatter"):
+                    continue
+                v = kw.value
+                key = "%s.%s:%s" % (fd.var or fd.name, e.name, kw.arg)
+                if isinstance(v, ast.Constant) and v.value is None:
+                    res.ok("C26.g", key, where, by="None")
+                elif isinstance(v, ast.Call) and dotted(v.func) in acc:
+                    res.ok("C26.g", key, where, by="string_formatters.%s" % dotted(v.func))
+                else:
+                    fn = None
+                    if isinstance(v, ast.Name):
+                        sym = repo.resolve(fd.mod.name, v.id)
+                        if sym is not None and getattr(sym, "kind", None) == "func":
+                            fn = sym.node
+                    elif isinstance(v, ast.Lambda):
+                        fn = v
+                    if fn is None:
+                        res.check(False, "C26.g", key, where, "the %s `%s` is neither a string_formatters instance nor a function of this package that can be examined" % (kw.arg, short(v, 50)), by="")
+                        continue
+                    for p_ in ast.walk(fn):
+                        for ch in ast.iter_child_nodes(p_):
+                            ch._parent = p_
+                    why = _total_function(fn) if not isinstance(fn, ast.Lambda) else []
+                    res.check(not why, "C26.g", key, where, "the custom %s %s can raise on a value the program legitimately stores (%s): printing the dictionary then fails inside the viewer's monitor, which is reported as an internal error" % (kw.arg, short(v, 40), "; ".join(why[:4])), by="every access total")
+
+
+def rule_h(repo, res):
+    from . import c20
+    from ..report import Ob
+    from ..core import class_methods as _cm
+
+    rm, rd = repo.cls(c20.IO + ":BitstreamReader")
+    wm, wr = repo.cls(c20.IO + ":BitstreamWriter")
+    R, W = _cm(rd), _cm(wr)
+    sub = Result("C20")
+    c20.rule_b(repo, sub, R, W, rm.rel)
+    c20.rule_g(repo, sub, R, W, rm.rel)
+    for o in sub.obs:
+        res._add(Ob("C26.h", "%s/%s" % (o.rule, o.key), o.where, o.status, o.detail, o.by, o.path))
